@@ -389,6 +389,9 @@ func runC04(c *Ctx) {
 			srv := fakeapi.New()
 			srv.ListLatency = func(int) time.Duration { return lat }
 			srv.SnapshotAtStart = old
+			// both forms of the list's version with both kinds of snapshot (the
+			// alternation of fakeapi.New alone would tie the two together)
+			srv.OpaqueVersions = (i/2)%2 == 1
 			srv.Set(1, 1, labSets[1], 1)
 			// a change lands just as each list returns: the watcher is handling its
 			// frame while the controller applies the list and resets the watcher
